@@ -51,3 +51,21 @@ Proof.
   eexists. split; [vm_compute; tauto|]. split; [vm_compute; reflexivity|]. split; [vm_compute; discriminate|].
   vm_compute. reflexivity.
 Qed.
+
+(* ------------------------------------------------------------------------------------------------------------
+   Enumeration to a resolution limit (for_all_reflections, include/gemmi/reciproc.hpp): the loops run over
+   |h| <= int(a/dmin), |k| <= int(b/dmin), |l| <= int(c/dmin) (UnitCell::get_hkl_limits). Over the reals, for ANY cell:
+   a reflection whose reciprocal-lattice vector s has length 1/d <= 1/dmin and satisfies s . a_vector = h (duality of
+   the reciprocal basis, property C11) has |h| <= floor(a/dmin) - no reflection of the sphere is outside the scanned box
+   (the same statement serves b, k and c, l). *)
+From Coq Require Reals.
+From GV Require Geo.HklLimits.
+Theorem C05_hkl_limits_cover_the_sphere : forall (h : Z) (a1 a2 a3 s1 s2 s3 a invd dmin : Rdefinitions.R),
+  Rdefinitions.Rlt (Rdefinitions.IZR 0) dmin -> Rdefinitions.Rle (Rdefinitions.IZR 0) a -> Rdefinitions.Rle (Rdefinitions.IZR 0) invd ->
+  Rdefinitions.Rplus (Rdefinitions.Rplus (RIneq.Rsqr a1) (RIneq.Rsqr a2)) (RIneq.Rsqr a3) = RIneq.Rsqr a ->
+  Rdefinitions.Rplus (Rdefinitions.Rplus (RIneq.Rsqr s1) (RIneq.Rsqr s2)) (RIneq.Rsqr s3) = RIneq.Rsqr invd ->
+  Rdefinitions.Rplus (Rdefinitions.Rplus (Rdefinitions.Rmult s1 a1) (Rdefinitions.Rmult s2 a2)) (Rdefinitions.Rmult s3 a3) = Rdefinitions.IZR h ->
+  Rdefinitions.Rle invd (Rdefinitions.Rinv dmin) ->
+  Z.abs h <= Flocq.Core.Raux.Zfloor (Rdefinitions.Rdiv a dmin).
+Proof. exact Geo.HklLimits.hkl_limit_sufficient. Qed.
+Print Assumptions C05_hkl_limits_cover_the_sphere.
